@@ -644,3 +644,75 @@ def search_order_first(ck: Check) -> None:
 def search_order_last(ck: Check) -> None:
     if not order_broken(ck):
         search_order(ck, budget_s=40.0)
+
+
+# ---------------------------------------------------------------- the real passes in another order (harness-side, nothing in /repo changes)
+def loop_passes() -> list[str]:
+    """names (as written, without the two leading underscores) of the `self.__xxx(...)` calls in the per-module loop of Parser.parse"""
+    from ..translate import parse_passes
+
+    return [n for n, _ in parse_passes.extract()[0]]
+
+
+class permuted_passes:
+    """Context manager: inside it `Parser.parse` runs the post-passes of its per-module loop in the order `order` (a permutation of
+    `loop_passes()`; names not listed keep their relative source order after the listed ones... no: every name must be listed).
+    Each pass is replaced by a recorder of its arguments; when the last one of an iteration has been recorded, the original
+    passes run in `order` with the recorded arguments (the arguments are the per-iteration mutable objects, so this is what
+    the loop body would do had it been written in that order). `before` is called with (parser, models) in front of the named pass."""
+
+    def __init__(self, order: list[str], spy: dict | None = None) -> None:
+        self.order = list(order)
+        self.spy = spy or {}
+        self.saved: dict[str, Any] = {}
+
+    @staticmethod
+    def _classes() -> list[type]:
+        """Parser and its subclasses: `@snooper_to_methods()` re-binds every plain method on the concrete parser classes, so
+        `JsonSchemaParser.__dict__` has its own `_Parser__reuse_model`, … (the classmethods stay on Parser only)"""
+        from datamodel_code_generator.parser.base import Parser
+        import datamodel_code_generator.parser.graphql  # noqa: F401
+        import datamodel_code_generator.parser.jsonschema  # noqa: F401
+        import datamodel_code_generator.parser.openapi  # noqa: F401
+
+        out, todo = [], [Parser]
+        while todo:
+            c = todo.pop()
+            if c not in out:
+                out.append(c)
+                todo += c.__subclasses__()
+        return out
+
+    def __enter__(self) -> "permuted_passes":
+        from datamodel_code_generator.parser.base import Parser
+
+        names = loop_passes()
+        if sorted(names) != sorted(self.order):
+            raise ValueError(f"not a permutation of the passes of the loop: {sorted(set(names) ^ set(self.order))}")
+        origs = {n: Parser.__dict__["_Parser__" + n] for n in names}
+        self.saved = {(c, n): c.__dict__["_Parser__" + n] for c in self._classes() for n in names if "_Parser__" + n in c.__dict__}
+        order, spy = self.order, self.spy
+
+        def make(name: str):
+            def recorder(self_, *args: Any, **kw: Any) -> None:
+                pending = self_.__dict__.setdefault("_dcgverif_pending", {})
+                pending[name] = (args, kw)
+                if len(pending) == len(names):
+                    self_.__dict__["_dcgverif_pending"] = {}
+                    for n in order:
+                        a, k = pending[n]
+                        if n in spy:
+                            spy[n](self_, *a)
+                        origs[n].__get__(self_, type(self_))(*a, **k)
+                    if "<end>" in spy:
+                        spy["<end>"](self_, *pending[order[-1]][0])
+
+            return recorder
+
+        for (c, n) in self.saved:
+            setattr(c, "_Parser__" + n, make(n))
+        return self
+
+    def __exit__(self, *exc: Any) -> None:
+        for (c, n), o in self.saved.items():
+            setattr(c, "_Parser__" + n, o)
